@@ -309,10 +309,16 @@ class J1939_21:
             max_num_packages = data[4] # Maximum number of segments that can be sent in response to one CTS.
             buffer_hash = self._buffer_hash(src_address, dest_address)
             if buffer_hash in self._rcv_buffer:
-                # according SAE J1939-21 we have to send an ABORT if an active
-                # transmission is already established
-                self.__send_tp_abort(dest_address, src_address, self.ConnectionAbortReason.BUSY, pgn)
-                return
+                if self._rcv_buffer[buffer_hash]['pgn'] == pgn:
+                    # SAE J1939-21: of several RTS from one originator for the same PGN the most recent
+                    # one is acted on, the previous one is abandoned (without an abort) - the originator
+                    # has given the earlier transfer up
+                    del self._rcv_buffer[buffer_hash]
+                else:
+                    # according SAE J1939-21 we have to send an ABORT if an active
+                    # transmission is already established
+                    self.__send_tp_abort(dest_address, src_address, self.ConnectionAbortReason.BUSY, pgn)
+                    return
 
             # limit max number segments
             max_num_packages = min(max_num_packages, num_packages)
@@ -426,6 +432,11 @@ class J1939_21:
         buffer_hash = self._buffer_hash(src_address, dest_address)
         if buffer_hash not in self._rcv_buffer:
             # TODO: LOG/TRACE/EXCEPTION?
+            return
+
+        if sequence_number != (len(self._rcv_buffer[buffer_hash]['data']) // 7) + 1:
+            # not the packet that comes next (a repeated one, or one of a transfer the originator
+            # has given up): it must not be taken for the next piece of this message
             return
 
         # get data
